@@ -28,6 +28,24 @@
 //     caller's surviving attributes must be a prefix of the caller's list and
 //     the synthesized ones must be a subset, each at most once. The value of
 //     exception.type is only required to be a string naming the error type.
+//   - An End call includes the way instrumented code reaches it when the work
+//     between Start and End panics: `defer span.End(opts...)` running while the
+//     goroutine panics. End documents "If this method is called while
+//     panicking an error event is added to the Span before ending it and the
+//     panic is continued". That event is "an event" in the sense of the
+//     statement: it goes through the event FIFO (limit 0 counts it as
+//     dropped, a full queue evicts the oldest) and the per-event attribute
+//     cap with its dropped count (2 attributes, 3 with WithStackTrace(true)).
+//     As for RecordError only counts, "each exception.* at most once",
+//     "exception.stacktrace only when asked for" and, for string / error
+//     panic values, the exception.message text are asserted; which of the
+//     synthesized attributes survive a biting cap is not. Whether the panic
+//     is continued is not part of the property (not asserted). End called
+//     from inside a deferred CLOSURE of a panicking goroutine cannot see the
+//     panic (language rule for recover) and is modelled as an ordinary End.
+//     End on a span that has already ended changes nothing, panicking or not.
+//   - "any span limits": every negative value means unlimited (SpanLimits
+//     doc), not just -1; positive limits are drawn up to MaxInt64.
 //   - SetStatus with the code already set replaces the description (API doc:
 //     "provided the status hasn't already been set to a higher value").
 //   - WithLinks documents that links with an invalid span context are
@@ -131,6 +149,43 @@ func mkErr(kind int, msg string) error {
 
 func ts(n int64) time.Time { return time.Unix(0, n) }
 
+// panicStruct is a panic value that is neither a string nor an error.
+type panicStruct struct{ Msg string }
+
+func panicValue(kind int, msg string) any {
+	switch kind {
+	case 0:
+		return msg
+	case 1, 2, 3:
+		return mkErr(kind, msg)
+	case 4:
+		return len(msg)
+	default:
+		return panicStruct{msg}
+	}
+}
+
+// endDeferred ends the span the way instrumented code does when the work
+// between Start and End panics: End is the deferred call itself and runs
+// while the goroutine is panicking with val. End is documented to add an
+// error event to the span and to let the panic continue; the runner stops the
+// panic here (whether it was continued is not part of the property).
+func endDeferred(span trace.Span, opts []trace.SpanEndOption, val any) (continued any) {
+	defer func() { continued = recover() }()
+	defer span.End(opts...)
+	panic(val)
+}
+
+// endInDeferredClosure calls End from inside a deferred closure of a
+// panicking goroutine: End is then not the deferred function, the language
+// gives it no way to see the panic (recover returns nil there) and it is an
+// ordinary End.
+func endInDeferredClosure(span trace.Span, opts []trace.SpanEndOption, val any) (continued any) {
+	defer func() { continued = recover() }()
+	defer func() { span.End(opts...) }()
+	panic(val)
+}
+
 func (l LinkD) link() trace.Link {
 	out := trace.Link{SpanContext: l.spanContext()}
 	if len(l.Attrs) > 0 {
@@ -167,6 +222,9 @@ func (l *lender) lend(kvs []vk.KV) []attribute.KeyValue {
 func (l *lender) altered() string {
 	for _, ln := range l.loans {
 		for i := range ln.orig {
+			if ln.buf[i] == ln.orig[i] {
+				continue // identical representation (the slow comparison below treats NaN as equal to itself)
+			}
 			if ln.buf[i].Key != ln.orig[i].Key || vk.ValueKey(ln.buf[i].Value) != vk.ValueKey(ln.orig[i].Value) {
 				return fmt.Sprintf("element %d: caller built %q=%s, slice now holds %q=%s", i,
 					string(ln.orig[i].Key), vk.ValueKey(ln.orig[i].Value), string(ln.buf[i].Key), vk.ValueKey(ln.buf[i].Value))
@@ -226,6 +284,8 @@ func callOp(span trace.Span, op Op, s, s2 []attribute.KeyValue) {
 		}
 		if op.Stack {
 			opts = append(opts, trace.WithStackTrace(true))
+		} else if op.StackOff {
+			opts = append(opts, trace.WithStackTrace(false))
 		}
 		if op.HasTS {
 			opts = append(opts, trace.WithTimestamp(ts(op.TS)))
@@ -236,10 +296,22 @@ func callOp(span trace.Span, op Op, s, s2 []attribute.KeyValue) {
 	case "name":
 		span.SetName(string(op.Text))
 	case "end":
+		var opts []trace.SpanEndOption
 		if op.HasTS {
-			span.End(trace.WithTimestamp(ts(op.TS)))
-		} else {
-			span.End()
+			opts = append(opts, trace.WithTimestamp(ts(op.TS)))
+		}
+		if op.Stack {
+			opts = append(opts, trace.WithStackTrace(true))
+		} else if op.StackOff {
+			opts = append(opts, trace.WithStackTrace(false))
+		}
+		switch op.Panic {
+		case 0:
+			span.End(opts...)
+		case 1:
+			endDeferred(span, opts, panicValue(op.PanicVal, string(op.Text)))
+		default:
+			endInDeferredClosure(span, opts, panicValue(op.PanicVal, string(op.Text)))
 		}
 	default:
 		panic("harness bug: unknown op " + op.Op)
@@ -417,6 +489,14 @@ const (
 )
 
 func (c *cmp) checkEvent(i int, lim Limits, want mEvent, got sdktrace.Event) {
+	if want.fromPanic {
+		// name the origin in every message about this event
+		want.name += ", added by End running as the deferred call of a panicking goroutine"
+		if got.Name != "exception" {
+			c.bad("event_name", "event %d: name %q, the event End adds while panicking is the exception event", i, got.Name)
+		}
+		got.Name = want.name
+	}
 	if got.Name != want.name {
 		c.bad("event_name", "event %d: name %q, model %q", i, got.Name, want.name)
 	}
@@ -455,7 +535,7 @@ func (c *cmp) checkEvent(i int, lim Limits, want mEvent, got sdktrace.Event) {
 			s := kv.Value.AsString()
 			switch string(kv.Key) {
 			case excMsg:
-				if s != want.errMsg && s != refTruncate(lim.ValueLen, want.errMsg) {
+				if !want.anyMsg && s != want.errMsg && s != refTruncate(lim.ValueLen, want.errMsg) {
 					c.bad("error_event_attrs", "event %d: exception.message %q, err.Error() %q", i, s, want.errMsg)
 				}
 			case excType:
@@ -668,9 +748,11 @@ func run(c Case) ([]vk.Violation, vk.Info) {
 	}
 
 	ended := false
-	for i, op := range c.Ops {
-		p.applyOp(i, op)
-		if op.Op == "end" {
+	for i, rop := range c.Ops {
+		for _, op := range expand(rop) {
+			p.applyOp(i, op)
+		}
+		if rop.Op == "end" {
 			ended = true
 		}
 	}
@@ -841,6 +923,34 @@ func classify(info *vk.Info, c Case, m *model, nvariants int) {
 	info.ClassIf(st.descOnNonError > 0, "description_with_non_error_code")
 	info.ClassIf(st.afterEnd > 0, "calls_after_end")
 	info.ClassIf(st.secondEnd > 0, "second_end")
+	lims := []int{c.Limits.ValueLen, c.Limits.Attrs, c.Limits.Events, c.Limits.Links, c.Limits.PerEvent, c.Limits.PerLink}
+	negOther, wide := false, false
+	for _, l := range lims {
+		negOther = negOther || l < -1
+		wide = wide || (l > 5 && l != 128)
+	}
+	info.ClassIf(negOther, "a_limit_negative_other_than_-1")
+	info.ClassIf(wide, "a_limit_outside_{-1,0,1,2,3,5,128}")
+	info.ClassIf(st.bytesAtLimit > 0, "string_of_exactly_limit_bytes")
+	info.ClassIf(st.runesAtLimit > 0, "string_over_limit_bytes_with_exactly_limit_characters")
+	info.ClassIf(st.truncWide > 0, "string_truncated_by_limit_ge_31")
+	info.ClassIf(st.bigAttrCall > 0, "setattributes_call_gt_12_kvs")
+	info.ClassIf(st.refusedFull > 0 && c.Limits.Attrs >= 64, "attr_limit_ge_64_refuses")
+	info.ClassIf(st.evictedEvents > 0 && c.Limits.Events >= 64, "event_limit_ge_64_evicts")
+	info.ClassIf(st.evictedLinks > 0 && c.Limits.Links >= 64, "link_limit_ge_64_evicts")
+	info.ClassIf(st.eventCapBites > 0 && c.Limits.PerEvent >= 64, "per_event_cap_ge_64_bites")
+	info.ClassIf(st.linkCapBites > 0 && c.Limits.PerLink >= 64, "per_link_cap_ge_64_bites")
+	info.ClassIf(st.stackOff > 0, "stack_trace_explicit_false")
+	burst := false
+	for _, op := range c.Ops {
+		burst = burst || op.Rep > 0
+	}
+	info.ClassIf(burst, "burst_of_repeated_calls")
+	info.ClassIf(st.panicEvents > 0, "end_deferred_while_panicking")
+	info.ClassIf(st.panicCapBites > 0, "panic_event_per_event_cap_bites")
+	info.ClassIf(st.panicEvicts > 0, "panic_event_evicts_or_dropped_by_event_limit")
+	info.ClassIf(st.panicEndAfterEnd > 0, "end_deferred_while_panicking_after_end")
+	info.ClassIf(st.endInClosure > 0, "end_inside_deferred_closure_while_panicking")
 	info.ClassIf(m.endHasTS, "end_timestamp_supplied")
 	info.ClassIf(len(c.Ops) == 0, "no_calls")
 }
@@ -848,11 +958,13 @@ func classify(info *vk.Info, c Case, m *model, nvariants int) {
 func TestSpanModel(t *testing.T) {
 	vk.Run(t, vk.Spec[Case]{
 		Property: "C04", Check: "span_model",
-		Rule: "six span limits from {-1,0,1,2,3,5,128} (biased small), start options (attributes, sampler attributes, links, kind, timestamp) and 0..40 span API calls " +
-			"(SetAttributes 0..12 kvs of all eight types with duplicate/empty keys and hostile strings, AddEvent, AddLink valid/invalid, RecordError, SetStatus, SetName, End) incl. calls after End; " +
+		Rule: "six span limits, 80% from {-1,0,1,2,3,5,128} (biased small), 10% from 4..MaxInt64 (around 8, 32, 128), 10% other negative values down to MinInt64; start options (attributes, sampler attributes, links, kind, timestamp) and 0..40 span API calls " +
+			"(SetAttributes 0..12 kvs of all eight types with duplicate/empty keys and hostile strings incl. long strings built to land on limit-1/limit/limit+1 characters and up to 700 characters, AddEvent, AddLink valid/invalid, RecordError, SetStatus, SetName, " +
+			"End with/without WithTimestamp and WithStackTrace(true|false), called plainly, as the deferred call of a panicking goroutine (panic value string / error / int / struct) or inside a deferred closure of one) incl. calls after End; " +
+			"event/link/error calls may be repeated as a burst; 1/16 of the programs are attribute-heavy (1000 keys, single calls of up to 300 kvs) and 1/16 queue-heavy (bursts of up to 300 events/links, up to 300 start links, lists of up to 300 attributes per event/link, limits around 128); " +
 			"attribute slices are caller-owned (spare capacity, scribbled after the op) and in a generated fraction of ops the same slice object is also passed to a second call on the same span and, before or after the primary call, to the corresponding call of a sibling span of a second provider with its own limits (half of the cases); " +
 			"non-trivial = the program fills the attribute map (a new key refused or an existing key updated while full) or evicts/drops >= 1 event or link or has >= 1 string cut by the value length limit; distinct = distinct case encodings",
-		Quick: 25000, Thorough: 750000,
+		Quick: 20000, Thorough: 400000,
 		Gen: gen, Run: run,
 		// no open known finding: the limit-0 / single-invalid-byte defect this
 		// check found was repaired in /repo (see known_findings.json "fixed").
